@@ -58,7 +58,27 @@ def sym_val(engine, st, ty, hint):
     return engine.typed(st, t, ty, assume=False)
 
 
-def run_unit(repo, unit, default_cfg_factory, timeout_ms=10000):
+SECOND_SOLVER = "/usr/bin/z3"        # z3 4.8.12 (Debian): an independent build of a different release, used as second back end
+
+
+def second_opinion(solver, budget_s=30):
+    """Re-check an `unsat` answer of the z3 5.1 API with the z3 4.8.12 binary on the printed SMT-LIB text of the same query."""
+    import subprocess, tempfile
+    try:
+        with tempfile.NamedTemporaryFile("w", suffix=".smt2", delete=False) as fh:
+            fh.write(solver.to_smt2())
+            path = fh.name
+        try:
+            p = subprocess.run([SECOND_SOLVER, "-T:%d" % budget_s, "-smt2", path], capture_output=True, text=True, timeout=budget_s + 10)
+            out = (p.stdout.strip().splitlines() or ["error"])[0]
+        finally:
+            os.unlink(path)
+        return out if out in ("unsat", "sat", "unknown") else ("unknown" if "timeout" in out else "error:" + out[:80])
+    except Exception as e:      # noqa
+        return "error:%s" % type(e).__name__
+
+
+def run_unit(repo, unit, default_cfg_factory, timeout_ms=10000, second=False):
     """Symbolically execute the unit and discharge its obligations.  Returns a result dict."""
     t0 = time.time()
     cfg = unit.cfg() if callable(unit.cfg) else (unit.cfg or default_cfg_factory())
@@ -135,6 +155,7 @@ def run_unit(repo, unit, default_cfg_factory, timeout_ms=10000):
             verdict = "proved"
             witness = None
             tsum = 0.0
+            sec = {}
             for ob in o["cases"]:
                 t1 = time.time()
                 r = None
@@ -168,6 +189,9 @@ def run_unit(repo, unit, default_cfg_factory, timeout_ms=10000):
                     if stage == 2:
                         break
                 tsum += time.time() - t1
+                if r == z3.unsat and second:
+                    so = second_opinion(s)
+                    sec[so.split(":")[0]] = sec.get(so.split(":")[0], 0) + 1
                 if r == z3.sat:
                     verdict = "refuted"
                     m = s.model()
@@ -175,14 +199,38 @@ def run_unit(repo, unit, default_cfg_factory, timeout_ms=10000):
                                "model": model_summary(m), "info": ob.info, "false_conjuncts": false_conjuncts(m, ob.formula)}
                     break
                 if r == z3.unknown:
+                    # budget escalation: a verdict must not flip to `undecided` because the machine is busy.  Retry the full
+                    # query (then the e-matching-only query) with 6x and 20x the budget and other random seeds.
+                    for attempt, (mult, mbqi, seed) in enumerate(((6, True, 1), (6, False, 2), (20, True, 3), (20, False, 4))):
+                        s = z3.Solver()
+                        s.set("timeout", timeout_ms * mult)
+                        s.set("smt.random_seed", seed)
+                        if not mbqi:
+                            s.set("smt.mbqi", False)
+                        for f in ob.pc:
+                            s.add(f)
+                        s.add(z3.Not(ob.formula))
+                        t2 = time.time()
+                        r = s.check()
+                        tsum += time.time() - t2
+                        if r != z3.unknown:
+                            break
+                    if r == z3.sat:
+                        verdict = "refuted"
+                        m = s.model()
+                        witness = {"decisions": [[str(a), bool(b)] for a, b in ob.decisions],
+                                   "model": model_summary(m), "info": ob.info, "false_conjuncts": false_conjuncts(m, ob.formula)}
+                        break
+                if r == z3.unknown:
                     verdict = "unknown"
                     witness = {"decisions": [[str(a), bool(b)] for a, b in ob.decisions], "reason": s.reason_unknown()}
             res["obligations"].append({"name": o["name"], "kind": o["kind"], "props": o["props"] or unit.props,
                                        "verdict": verdict, "cases": len(o["cases"]), "solver_s": round(tsum, 4),
-                                       "witness": witness})
+                                       "witness": witness, "second": sec})
             res["solver_s"] += tsum
         res["solver_s"] = round(res["solver_s"] + engine.solver_time, 3)
         res["solver_checks"] = engine.solver_checks
+        res["executed"] = sorted(engine.executed)
     except Unsupported as e:
         res["error"] = "unsupported: %s" % e
         res["trace"] = traceback.format_exc()
